@@ -285,7 +285,8 @@ func runC06(t *testing.T, planAny any, res *simnet.Result) {
 					continue
 				}
 				for _, d := range w.DeliveredAt(r) {
-					if d >= t0 && d <= t1 {
+					// (a message handed over shortly before the window may still be at a yield point when it opens)
+					if d >= t0-7*time.Millisecond && d <= t1 {
 						res.Add("probe_inconclusive_window", 1)
 						return
 					}
